@@ -302,9 +302,47 @@ class Run:
         return 1 if self.violations else 0
 
 
+def regenerate_all():
+    """Every source-derived Coq file (T1 engine skeletons, T2 lock table, T3 pool shapes, compile entry points, T4 interpreter facts) is
+    regenerated from /repo's CURRENT tree before anything is compiled, so that no check ever reads a model generated
+    from an earlier tree (e.g. one left behind by a run on a modified /repo)."""
+    if not os.path.exists(os.path.join(BUILD, "xlate")):
+        build_harness()
+    for sub, args, name in (("engine", [os.path.join(REPO, "engine", "gengine.go")], "Gen_Engine.v"),
+                            ("pool", [os.path.join(REPO, "engine", "gengine_pool.go")], "Gen_Pool.v"),
+                            ("locks", [REPO], "Gen_Locks.v"), ("compile", [REPO], "Gen_Compile.v"), ("interp", [REPO], "Gen_Interp.v")):
+        write_if_changed(os.path.join(GEN, name), run_xlate(sub, args))
+
+
+def interp_facts_missing(pid):
+    """T4 obligation for one property: the structural premises of the interpreter model that this property relies on
+    (Lang/InterpShape.v facts_of) and that do NOT hold in internal/base/*.go now. [] = obligation discharged."""
+    header = "From Coq Require Import String List Bool.\nFrom GV Require Import Lang.InterpShape.\nFrom GVgen Require Import Gen_Interp.\n"
+    res = coq_eval_cases("cases_interp_%s" % pid, header, 'Definition MISS := missing gen_interp_facts (facts_of "%s"%%string).' % pid, ["MISS"])
+    return re.findall(r'"([^"]+)"', res["MISS"])
+
+
+def interp_facts_report(run, pid, found_concrete):
+    """Adds the T4 obligation to the run's coverage; reports it (no failing input) when it is broken and the campaign found nothing."""
+    missing = interp_facts_missing(pid)
+    cov = run.coverage
+    cov["obligations"] = cov.get("obligations", 0) + 1
+    cov.setdefault("obligation_names", []).append("T4: the structural premises of the interpreter model used by %s hold in internal/base/*.go (gen/Gen_Interp.v, Lang/InterpShape.v facts_of)" % pid)
+    if not missing:
+        cov["discharged"] = cov.get("discharged", 0) + 1
+    elif not found_concrete:
+        gen = open(os.path.join(GEN, "Gen_Interp.v")).read()
+        run.report({"kind": "obligation", "symptom": "interp-shape", "facts": missing},
+                   {"obligation": "missing gen_interp_facts (facts_of %s) = [] (T4, Lang/InterpShape.v)" % pid, "offending": missing,
+                    "generated": "\n".join(l for l in gen.split("\n") if any(m in l for m in missing))},
+                   "%s: the interpreter no longer has the structure the model encodes (%s) and no failing input was found" % (pid, ", ".join(missing)), no_input=True)
+    return missing
+
+
 def proof_obligations(run, pid, extra_obligations=0, extra_discharged=0, extra_names=()):
     """Build the development and the property file; fill the proof-level coverage keys.
     Returns (ok, log)."""
+    regenerate_all()
     if os.environ.get("VERIF_NO_MAKE"):
         ok, log = True, ""
         pok, nthm, out = True, 0, ""
